@@ -209,6 +209,9 @@ def level2_configs(tier):
         cfgs.append(dict(KR=6, KQ=6, NS=2, rev=True, shapes=[], sj="0", shapes_per_segment=[["PPPP"], ["PQPP", "PPRP"]]))
         # reverse strand: an unpaired query label inside the earlier segment next to the overlap
         cfgs.append(dict(KR=5, KQ=5, NS=2, rev=True, shapes=[], sj="0", shapes_per_segment=[["PQP", "PQPP", "PPQP"], ["PP", "PPP"]]))
+        # a segment with one unpaired label of each map (an indel pair) against a 4-pair segment: the two seeds pair the overlap
+        # differently, so cutting by reference labels and cutting by query labels give different results
+        cfgs.append(dict(KR=6, KQ=6, NS=2, rev=True, shapes=[], sj="0", shapes_per_segment=[["PRPQP", "PQPRP"], ["PPPP"]]))
     else:
         for rev in (False, True):
             cfgs.append(dict(KR=4, KQ=4, NS=2, rev=rev, shapes=SHAPES_THOROUGH, sj="0"))
